@@ -31,6 +31,7 @@ use scrut::generators::generator::UpdateGenerator;
 use scrut::generators::markdown::MarkdownTestCaseGenerator;
 use scrut::generators::markdown::MarkdownUpdateGenerator;
 use scrut::outcome::Outcome;
+use scrut::output::ExitStatus;
 use scrut::parsers::markdown::DEFAULT_MARKDOWN_LANGUAGES;
 use scrut::parsers::parser::ParserType;
 use scrut::renderers::pretty::DEFAULT_SURROUNDING_LINES;
@@ -241,7 +242,12 @@ impl Args {
 
                     // take test execution output, run validation and store all outcomes ...
                     for (testcase, output) in test.testcases.iter().zip(outputs.iter()) {
-                        let result = testcase.validate(output);
+                        // a detached testcase has no output that could be validated: keep it as it is
+                        let result = if output.exit_code == ExitStatus::Detached {
+                            Ok(())
+                        } else {
+                            testcase.validate(output)
+                        };
                         let mut testcase = testcase.to_owned();
                         testcase.config = testcase.config.without_environment(&env_vars);
                         outcomes.push(Outcome {
